@@ -232,7 +232,10 @@ def run_shard(spec, tier, seed):
             res.cell("keyword-order", key)
         # hostile values on valid sets
         if ref is not None:
-            for bad in (True, "1.0", None, 1 + 2j, [1.0]):
+            for bad in (True, "1.0", None, 1 + 2j, [1.0],
+                        # ... and the NumPy scalar counterparts of each rejected kind
+                        numpy.True_, numpy.bool_(False), numpy.str_("1.0"), numpy.bytes_(b"1"), numpy.complex128(1 + 2j), numpy.complex64(1),
+                        numpy.datetime64("2020-01-01"), numpy.array([1.0]), numpy.array(True), numpy.void(b"\x00")):
                 hv = dict(vals)
                 hv[names[len(names) // 2]] = bad
                 for cname, ctor in [("obj", vector.obj), (objclasses[(len(ref[0]) + 1, ref[1])].__name__, objclasses[(len(ref[0]) + 1, ref[1])])]:
